@@ -172,6 +172,17 @@ class Ctx:
         }
         with open(os.path.join(EVIDENCE_DIR, "%s.json" % self.prop), "w") as f:
             json.dump(ev, f, indent=1)
+        try:
+            self._print_summary(wall, n, ok, known, lines)
+        except BrokenPipeError:
+            pass
+        if self.violations:
+            return 1
+        if self.incomplete:
+            return 2
+        return 0
+
+    def _print_summary(self, wall, n, ok, known, lines):
         print("%s tier=%s rules=%d obligations=%d discharged=%d known=%d violated=%d functions=%d wall=%.2fs" % (
             self.prop, self.tier, len(self.order), n, ok, known, len(self.violations), len(self.functions), wall))
         for rid in self.order:
